@@ -116,6 +116,9 @@ type c05Case struct {
 	RespStatus  int // 0 successful, 1 malformed, 2 internal, 3 tryLater, 6 unauthorized
 	FlipBit     int // -1 none
 	FlipSeed    string
+	// AfterSibling: before this case, the same checker looks up a client of the sibling CA (same name as the issuer,
+	// other key) and gets an authentic answer signed by that sibling: nothing learnt there applies to this certificate
+	AfterSibling bool
 }
 
 func (c c05Case) String() string {
@@ -123,6 +126,9 @@ func (c c05Case) String() string {
 	s := fmt.Sprintf("signer=%s status=%s respStatus=%d otherSerial=%v", c.Signer, st, c.RespStatus, c.OtherSerial)
 	if c.FlipBit >= 0 {
 		s += fmt.Sprintf(" flip=%d", c.FlipBit)
+	}
+	if c.AfterSibling {
+		s += " after-lookup-of-a-sibling-CA-client"
 	}
 	return s
 }
@@ -213,6 +219,14 @@ func (k *c05Cast) run(c c05Case) (used, cached bool, v1, v2 Verdict, authentic b
 	body, authentic := k.build(c)
 	res := seqWorld(func() {
 		w := NewOW(true, 10*time.Minute, nil, nil)
+		if c.AfterSibling {
+			const sibURL = "http://ocsp.test/sibling"
+			sl := world.Issue(k.sibling, world.CertOpt{CN: "c05 client of the sibling CA", Serial: big.NewInt(4300), KeyKind: "rsa", KeyIdx: 1, OCSP: []string{sibURL}})
+			w.Net.Serve(sibURL, "sibling-good", world.BuildOCSP(world.OCSPAnswer{Status: xocsp.Good, Serial: sl.Cert.SerialNumber, Issuer: k.sibling, Signer: k.sibling, ThisUpdate: vsched.Epoch.Add(-time.Minute)}))
+			if v := w.Lookup(sl, world.Chain(sl, k.sibling, k.p.Root)); v.String() != "OK" {
+				panic("c05 prelude: sibling client lookup: " + v.String() + " " + v.Err)
+			}
+		}
 		w.Net.Serve(ocspURL, "scripted", body)
 		leaf := k.leafFor(c)
 		chain := world.Chain(leaf, k.issuer, k.p.Root)
@@ -254,6 +268,9 @@ func RunC05(tier string, args []string) int {
 		}
 		if used || cached {
 			feature := "signer=" + c.Signer
+			if c.AfterSibling {
+				feature += " after-lookup-of-a-sibling-CA-client"
+			}
 			switch {
 			case c.FlipBit >= 0:
 				feature = "bitflip seed=" + c.FlipSeed
@@ -283,6 +300,12 @@ func RunC05(tier string, args []string) int {
 	}
 	for _, rs := range []int{1, 2, 3, 5, 6} {
 		judge(c05Case{Signer: "issuer", Status: xocsp.Good, RespStatus: rs, FlipBit: -1})
+	}
+	// two-step histories on one checker: first a client of the sibling CA, then this certificate
+	for _, s := range c05Signers {
+		for _, st := range []int{xocsp.Good, xocsp.Revoked} {
+			judge(c05Case{Signer: s, Status: st, FlipBit: -1, AfterSibling: true})
+		}
 	}
 	// every single-bit flip of an authentic good and an authentic revoked response (issuer-signed, and delegated)
 	flips := 0
